@@ -240,8 +240,21 @@ def step_harness(ctx, name, n, m):
         c = conc(inputs)
         return {k: (x.tolist() if isinstance(x, np.ndarray) else x) for k, x in c.items()}
 
+    saved = {k: (np.asarray(e[k].val, dtype=object).copy(), dense(e[k].jac).copy()) for k in ("A", "B")}
+    saved_v = np.asarray(e["v"], dtype=object).copy()
     out = apply(e)
-    a, b = e["A"].val, e["B"].val
+    # operands must not be modified by the operation (they may be shared sub-expressions)
+    for k in ("A", "B"):
+        nv, nj = np.asarray(e[k].val, dtype=object), dense(e[k].jac)
+        same = nv.shape == saved[k][0].shape and nj.shape == saved[k][1].shape
+        ctx.check(f"operand-unchanged[{name}]", bool(same), case)
+        if same:
+            for x, y in zip(nv.ravel().tolist() + nj.ravel().tolist(),
+                            saved[k][0].ravel().tolist() + saved[k][1].ravel().tolist()):
+                ctx.check(f"operand-unchanged[{name}]", lift(x) == lift(y), case)
+    for x, y in zip(np.asarray(e["v"], dtype=object).tolist(), saved_v.tolist()):
+        ctx.check(f"operand-unchanged[{name}]", lift(x) == lift(y), case)
+    a, b = saved["A"][0].view(SymArr), saved["B"][0].view(SymArr)
     dep_ads = [e["A"]] + ([e["B"]] if "B" in deps else [])
     if name == "Sreal@ad":
         refv = e["Sreal"] @ a
@@ -426,6 +439,14 @@ def replay_case(case):
         z = np.concatenate([x, y])
         rv_, rj = np.atleast_1d(f(z)), _num_jac(f, z)
     else:
+        e0 = _real_env(case)
+        before = {k: (e0[k].val.copy(), e0[k].jac.toarray().copy()) for k in ("A", "B")}
+        _ops()[case["op"]][0](e0)
+        for k in ("A", "B"):
+            if not (np.array_equal(e0[k].val, before[k][0]) and e0[k].jac.shape == before[k][1].shape
+                    and np.array_equal(e0[k].jac.toarray(), before[k][1])):
+                return True, (f"operand {k} was modified by {case['op']}: jac {before[k][1].tolist()} -> "
+                              f"{e0[k].jac.toarray().tolist()}")
         got = concrete_run(case)
         e = _real_env(case)
         apply, ref, deps, _, _ = _ops()[case["op"]]
